@@ -73,6 +73,21 @@ class Events:
             print(json.dumps(L.jsonable(kw), indent=1), flush=True)
 
 
+def run_stdin(ctx, args, cwd, inp, timeout=120):
+    """ctx.atlas_run with bytes on stdin (the interactive approval prompt of `schema apply` reads it:
+    enter = Apply, 'j' + enter = Abort). Same isolation (HOME/TMPDIR/cwd in the case directory)."""
+    import subprocess
+    e = {"PATH": os.environ.get("PATH", "/usr/bin:/bin"), "HOME": os.path.join(cwd, "home"), "TMPDIR": os.path.join(cwd, "tmp"),
+         "ATLAS_NO_UPDATE_NOTIFIER": "1", "ATLAS_NO_UPGRADE_SUGGESTIONS": "1", "NO_COLOR": "1"}
+    os.makedirs(e["HOME"], exist_ok=True)
+    os.makedirs(e["TMPDIR"], exist_ok=True)
+    try:
+        r = subprocess.run([ctx.atlas] + list(args), cwd=cwd, env=e, input=inp, capture_output=True, timeout=timeout)
+        return r.returncode, r.stdout.decode("utf-8", "replace"), r.stderr.decode("utf-8", "replace")
+    except subprocess.TimeoutExpired as ex:
+        return 124, (ex.stdout or b"").decode("utf-8", "replace"), (ex.stderr or b"").decode("utf-8", "replace")
+
+
 def hash_dir(ctx, d, mdir):
     rc, out, err = ctx.atlas_run(["migrate", "hash", "--dir", "file://" + mdir], d)
     return rc == 0, out + err
@@ -238,6 +253,56 @@ def fix_candidates(ctx):
                                               "fail": fails[0], "fails": fails, "fixkinds": [fx], "start": start, "prefix": k, "cnt": "-",
                                               "count": None, "fk": rng.random() < 0.08, "dseed": rng.getrandbits(32), "busy": True, "samefile": False})
     return cands
+
+
+def empty_candidates(ctx):
+    """Directories with statement-less files (comment only, directive only, blank, zero bytes) at first,
+    middle and last positions, in every tx-mode. Returns (first_pending_empty_all, other): the first list
+    holds all-mode cases whose FIRST pending file has no statement and in which a later file fails."""
+    rng = ctx.rand("empty-cases")
+    shapes = [[0, 2, 3], [2, 0, 3], [0, 0, 2, 2], [1, 0, 0, 3], [0, 3], [2, 0, 2, 0], [0, 1, 0, 2]]
+    for _ in range(ctx.pick(1, 8)):
+        sh = [rng.choice([0, 0, 1, 2, 3]) for _ in range(rng.randint(2, 4))]
+        if not any(sh):
+            sh[-1] = 2
+        shapes.append(sh)
+    sens, other = [], []
+    for si, shape in enumerate(shapes):
+        nf = len(shape)
+        first = L.first_stmt(shape)
+        positions = [(f, s_) for f in range(nf) for s_ in range(shape[f])] + [None]
+        for pos in positions:
+            F = pos[0] if pos else nf - 1
+            E = [f for f in range(nf) if shape[f] == 0]
+            for mode in ("all", "file", "none"):
+                for dk in ("nodir", "E:none", "E:file", "F:none", "F:file"):
+                    if mode == "all" and dk != "nodir" and rng.random() > 0.1:
+                        continue
+                    for start in ["fresh", "revtable", "dirty"] + (["prefix"] if F > 0 else []):
+                        k = rng.randint(1, F) if start == "prefix" else 0
+                        dirs = [None] * nf
+                        if dk[0] == "E":
+                            dirs[rng.choice(E)] = dk[2:]
+                        elif dk[0] == "F" and shape[F] > 0:
+                            dirs[F] = dk[2:]
+                        fail = None
+                        if pos:
+                            fail = [pos[0], pos[1], "missing" if pos == first else rng.choice([x for x in L.FAIL_KINDS if x != "fk"])]
+                        c = {"part": "apply", "shape": shape, "shape_id": 300 + si, "directives": dirs, "dk": dk, "mode": mode,
+                             "empties": {str(f): rng.choice(L.EMPTY_KINDS) for f in E}, "fail": fail, "fails": [fail] if fail else [],
+                             "start": start, "prefix": k, "cnt": "-", "count": None, "fk": rng.random() < 0.08,
+                             "dseed": rng.getrandbits(32), "busy": True, "samefile": False}
+                        if mode == "all" and fail and k < nf and shape[k] == 0 and fail[0] > k and not any(dirs):
+                            sens.append(c)
+                        else:
+                            other.append(c)
+    return sens, other
+
+
+def empty_projs(c):
+    first_empty = c["shape"][c["prefix"]] == 0 if c["prefix"] < len(c["shape"]) else False
+    kinds = tuple(sorted(set(c["empties"].values())))
+    return [("a", c["mode"], c["dk"], first_empty, bool(c["fail"])), ("b", c["mode"], c["start"], first_empty), ("c", c["mode"], kinds[:1], first_empty)]
 
 
 def fix_projs(c):
@@ -406,7 +471,7 @@ def run_apply_case(ctx, case, verbose=False):
     ev = Events(verbose)
     d = ctx.casedir("-apply")
     mdir, db = os.path.join(d, "m"), os.path.join(d, "x.db")
-    good = L.gen_files(random.Random(case["dseed"]), case["shape"], case["directives"])
+    good = L.gen_files(random.Random(case["dseed"]), case["shape"], case["directives"], case.get("empties"))
     rem = sorted(tuple(x) for x in (case.get("fails") or ([case["fail"]] if case["fail"] else [])))
     allfails, fixkinds, nfixed = list(rem), case.get("fixkinds") or [], 0
     multi = len(rem) > 1
@@ -464,6 +529,8 @@ def run_apply_case(ctx, case, verbose=False):
     after = dump_db(db)
     exp = L.expect_apply(bad, sums, st, mode, case["count"], fail, fk)
     ctx.count("apply-run:" + ("expected-failure" if exp.fails else "expected-success"))
+    if mode == "all" and exp.fails and fail and st.done < len(bad) and not bad[st.done]["stmts"] and fail[0] > st.done and not any(case["directives"]):
+        ctx.count("all-mode:failure-after-a-statement-less-first-pending-file")
     if exp.fails:
         ctx.count("apply-failure-model:" + exp.why)
     cur = j.judge("fail-run", st, exp, before, after, db + ".before", rc, out, err, args, eff, mode)
@@ -581,8 +648,11 @@ def schema_candidates(ctx):
             for form in ("url", "sql", "hcl"):
                 for fmt in (False, True):
                     for txflag in (None, "file"):
-                        cands.append({"part": "schema", "pre": pre, "poison": poison, "form": form, "fmt": fmt, "txflag": txflag,
-                                      "fk": rng.random() < 0.3})
+                        for approve in ("auto", "prompt"):
+                            if approve == "prompt" and fmt:
+                                continue  # --format needs --dry-run or --auto-approve
+                            cands.append({"part": "schema", "pre": pre, "poison": poison, "form": form, "fmt": fmt, "txflag": txflag,
+                                          "approve": approve, "fk": rng.random() < 0.3})
     return cands
 
 
@@ -590,7 +660,7 @@ def schema_projs(c):
     return [("a", c["poison"], c["form"]), ("b", c["poison"], tuple(c["pre"])), ("c", c["form"], c["fmt"], c["txflag"]), ("d", c["poison"], c["fk"], c["fmt"])]
 
 
-def schema_args(d, db, case, desired_ddl, ctx, dry=False, txmode=None):
+def schema_args(d, db, case, desired_ddl, ctx, dry=False, txmode=None, prompt=False):
     """Build the desired-state argument in the requested form. Returns args or None (setup failure)."""
     form = case["form"]
     to = None
@@ -613,8 +683,8 @@ def schema_args(d, db, case, desired_ddl, ctx, dry=False, txmode=None):
                 open(p, "w").write(out)
             to = ["--to", "file://" + p]
     args = ["schema", "apply", "--url", url_for(db, case["fk"], False)] + to
-    args += ["--dry-run"] if dry else ["--auto-approve"]
-    if case["fmt"]:
+    args += ["--dry-run"] if dry else [] if prompt else ["--auto-approve"]
+    if case["fmt"] and not prompt:
         args += ["--format", "{{ json . }}"]
     if txmode:
         args += ["--tx-mode", txmode]
@@ -660,15 +730,34 @@ def run_schema_case(ctx, case, verbose=False):
     db2 = os.path.join(d, "y.db")
     shutil.copy(db, db2)
     b2 = strict_dump(db2)
-    args2 = schema_args(d, db2, case, desired, ctx, txmode="none")
-    rc2, out2, err2 = ctx.atlas_run(args2, d)
+    prompt = case.get("approve") == "prompt"
+    args2 = schema_args(d, db2, case, desired, ctx, txmode="none", prompt=prompt)
+    rc2, out2, err2 = run_stdin(ctx, args2, d, b"\n")
     a2 = strict_dump(db2)
     midway = rc2 not in (0, 124) and b2 != a2
     ctx.count("schema:none-mode-sibling|" + ("rc=0" if rc2 == 0 else "left-partial-changes" if midway else "failed-before-first-change"))
-    # the run under test: default mode (or explicit file)
-    args = schema_args(d, db, case, desired, ctx, txmode=case["txflag"])
-    rc, out, err = ctx.atlas_run(args, d)
+    if prompt:
+        # interactive leg 1: the user picks "Abort" at the approval prompt -> nothing may change, in any tx-mode
+        for txm in sorted({case["txflag"], "none"}, key=str):
+            argsA = schema_args(d, db, case, desired, ctx, txmode=txm, prompt=True)
+            rcA, outA, errA = run_stdin(ctx, argsA, d, b"j\n")
+            afterA = strict_dump(db)
+            asked = "Are you sure" in outA and "Abort" in outA
+            ctx.eval(digest("schema-abort", case["poison"], case["pre"], txm, rcA), nontrivial=asked)
+            ctx.count("schema-prompt-abort|tx=%s|%s" % (txm or "default", "asked-and-aborted" if asked and rcA == 0 else "rc=%d" % rcA))
+            if before != afterA:
+                df = diff_full(before, afterA)
+                ev.add(verdict="violated", what="aborted schema apply changed the database", diff=df)
+                ctx.violation("C13|schema-apply|approve=prompt|abort-changed-database", "schema apply aborted at the approval prompt changed the database",
+                              dict(case, sub="abort"), {"args": argsA, "rc": rcA, "diff": df[:12], "stdout": tail(outA, 600)})
+                return ev
+    # the run under test: default mode (or explicit file); approved by --auto-approve or at the prompt (enter = Apply)
+    args = schema_args(d, db, case, desired, ctx, txmode=case["txflag"], prompt=prompt)
+    rc, out, err = run_stdin(ctx, args, d, b"\n")
     after = strict_dump(db)
+    if prompt and "Are you sure" not in out:
+        ctx.inconclusive("prompt-not-shown")
+        return ev
     if rc == 124:
         ctx.inconclusive("watchdog")
         return ev
@@ -679,12 +768,13 @@ def run_schema_case(ctx, case, verbose=False):
         return ev
     ctx.eval(digest("schema-fail", case["poison"], case["pre"], tail(err, 200)), nontrivial=midway)
     ctx.count("schema-fail|path=%s|%s" % (path, "midway-proven" if midway else "first-statement-or-unproven"))
+    ctx.count("schema-fail|approve=%s|%s" % (case.get("approve", "auto"), "midway-proven" if midway else "first-statement-or-unproven"))
     ctx.count("schema-fail|form=%s|fmt=%s|tx=%s" % (case["form"], case["fmt"], case["txflag"] or "default"))
     ctx.sample({"schema_case": case, "desired": desired, "args": args[2:], "rc": rc, "stderr": tail(err, 400),
                 "none_mode_sibling_left": diff_full(b2, a2)[:6], "before_to_after": diff_full(before, after)[:6]}, cap=5)
     if before != after:
         df = diff_full(before, after)
-        key = "C13|schema-apply|path=%s|not-all-or-nothing" % path
+        key = "C13|schema-apply|path=%s|not-all-or-nothing" % path + ("|approve=prompt" if prompt else "")
         ev.add(verdict="violated", key=key, diff=df, stderr=tail(err))
         ctx.violation(key, "schema apply in its default transaction mode failed midway and left changes behind", case,
                       {"args": args, "rc": rc, "stderr": tail(err), "stdout": tail(out, 1500), "diff(before->after)": df[:14]})
@@ -860,8 +950,17 @@ def main():
     fix_sel = select(ctx, fix_candidates(ctx), ctx.pick(40, 260), fix_projs)
     for c in fix_sel:
         ctx.count("fix-variant|%s|mode=%s|file-mode=%s|pos=%s" % (c["fixkinds"][0], c["mode"], c["directives"][c["fail"][0]] or c["mode"], spos_class(c["shape"], c["fail"])))
-    apply_sel = apply_sel + multi_sel + fix_sel
-    schema_sel = select(ctx, schema_candidates(ctx), ctx.pick(36, 320), schema_projs)
+    e_sens, e_other = empty_candidates(ctx)
+    empty_sel = select(ctx, e_sens, ctx.pick(8, 60), empty_projs) + select(ctx, e_other, ctx.pick(26, 200), empty_projs)
+    for c in empty_sel:
+        fe = c["prefix"] < len(c["shape"]) and c["shape"][c["prefix"]] == 0
+        ctx.count("statement-less-file|mode=%s|first-pending-file-is-statement-less=%s|%s" % (c["mode"], fe, "later-failure" if c["fail"] else "no-failure"))
+        for kd in c["empties"].values():
+            ctx.count("statement-less-file|kind=%s" % kd)
+    apply_sel = apply_sel + multi_sel + fix_sel + empty_sel
+    sc = schema_candidates(ctx)
+    schema_sel = select(ctx, [c for c in sc if c["approve"] == "auto"], ctx.pick(30, 260), schema_projs) + \
+        select(ctx, [c for c in sc if c["approve"] == "prompt"], ctx.pick(14, 100), schema_projs)
     dry_sel = select(ctx, dry_candidates(ctx), ctx.pick(72, 480), dry_projs)
     matrix = {}
     for c in apply_sel:
@@ -880,7 +979,7 @@ def main():
         RUNNERS[w[0]](ctx, w[1])
 
     ctx.par(work, one, workers=min(ctx.workers, 16))
-    ctx.finish(RULE, {"cases": {"apply": len(apply_sel), "apply-multi-failure": len(multi_sel), "apply-fix-variants": len(fix_sel), "schema": len(schema_sel), "dry": len(dry_sel)},
+    ctx.finish(RULE, {"cases": {"apply": len(apply_sel), "apply-multi-failure": len(multi_sel), "apply-fix-variants": len(fix_sel), "apply-statement-less-files": len(empty_sel), "schema": len(schema_sel), "dry": len(dry_sel)},
                       "matrix(mode|directive|start|failing-position)": matrix,
                       "exhaustive": False})
     if not os.environ.get("VERIF_KEEP"):
@@ -888,7 +987,8 @@ def main():
     # A run that did not observe the behaviours the verdict is about must not pass.
     need = ["apply-failure-model:statement failed in file mode", "apply-failure-model:statement failed in all mode",
             "apply-failure-model:statement failed in none mode", "final-compared-with-clean-run",
-            "multi:run-resumes-a-file-that-failed-twice(first after >=1 statement)", "schema:none-mode-sibling|left-partial-changes", "schema-fail|path=alter|midway-proven", "schema-fail|path=rebuild|midway-proven"]
+            "multi:run-resumes-a-file-that-failed-twice(first after >=1 statement)", "schema-fail|approve=prompt|midway-proven",
+            "all-mode:failure-after-a-statement-less-first-pending-file", "schema:none-mode-sibling|left-partial-changes", "schema-fail|path=alter|midway-proven", "schema-fail|path=rebuild|midway-proven"]
     missing = [k for k in need if not ctx.counters.get(k)]
     if not any(k.startswith("dry-run:migrate-apply|") and k.endswith("statements-shown") for k in ctx.counters):
         missing.append("dry-run:migrate-apply …statements-shown")
